@@ -292,6 +292,8 @@ pub fn flavour_exe_of(path: &std::path::Path) -> Option<PathBuf> {
 
 /// number of violation reports after which no further batches are started
 const FLOOD: usize = 400;
+/// ... or this many worker deaths (each hang costs the watchdog's CPU allowance)
+const DEATH_FLOOD: u64 = 48;
 
 pub fn crash_sig(how: &str, progress: &str) -> Value {
     // the progress tag's first token names the phase (e.g. "run", "compile", "op:insert")
@@ -376,8 +378,12 @@ pub fn run_check(check: &'static dyn Check, tier: Tier, seed: u64, jobs: usize) 
             }
             // a tree that fails everywhere has been decided long before the last case: stop
             // handing out batches once several hundred violation reports are in
-            if agg.lock().unwrap().violations.len() >= FLOOD {
-                break;
+            {
+                let a = agg.lock().unwrap();
+                let deaths = a.stats.get("worker_deaths").copied().unwrap_or(0);
+                if a.violations.len() >= FLOOD || deaths >= DEATH_FLOOD {
+                    break;
+                }
             }
             let mut from = b * batch;
             let to = ((b + 1) * batch).min(n);
@@ -562,7 +568,7 @@ pub fn run_check(check: &'static dyn Check, tier: Tier, seed: u64, jobs: usize) 
             }
         }
     }
-    let flooded = total_reports >= FLOOD;
+    let flooded = total_reports >= FLOOD || agg.stats.get("worker_deaths").copied().unwrap_or(0) >= DEATH_FLOOD;
     if agg.cases_done < n {
         if flooded {
             println!("NOTE: stopped after {} of {n} cases: several hundred violation reports were in", agg.cases_done);
